@@ -87,6 +87,23 @@ fn progs_for(front: &str, tier: Tier) -> Vec<(Program, Mode)> {
     add("fresh-ensure|deleter", 1 << 20, vec![], vec![vec![api(Op::Ensure(k.clone(), Pop::Value(v(0, 0))))], vec![POp::Unlink(loc("k"))]], true, b2);
     add("fresh-ensure-get|deleter", 1 << 20, vec![], vec![vec![api(Op::Ensure(k.clone(), Pop::Value(v(0, 0)))), api(Op::Get(k.clone()))], vec![POp::Unlink(loc("k")), POp::Unlink(loc("k"))]], true, b2);
     add("replace|deleter", 1 << 20, vec![planted(&loc("k"), Val::new(0, Size::Five), false, 3)], vec![vec![api(Op::Gou(k.clone(), crate::ops::Act::Replace, Pop::Value(v(0, 0))))], vec![POp::Unlink(loc("k"))]], true, b2);
+    // the destination of a put is deleted and published again by peers while the put is between its link and its touch
+    add(
+        "put|deleter|republisher",
+        1 << 20,
+        vec![planted(&loc("k"), Val::new(0, Size::Five), false, 3)],
+        vec![vec![api(Op::Put(k.clone(), v(0, 0)))], vec![POp::Unlink(loc("k"))], vec![api(Op::Set(k.clone(), v(2, 0)))]],
+        true,
+        b2,
+    );
+    add(
+        "ensure|deleter|republisher",
+        1 << 20,
+        vec![planted(&loc("k"), Val::new(0, Size::Five), false, 3)],
+        vec![vec![api(Op::Ensure(k.clone(), Pop::Value(v(0, 0))))], vec![POp::Unlink(loc("k"))], vec![api(Op::Put(k.clone(), v(2, 0)))]],
+        true,
+        b2,
+    );
     add("tiny-ensure|maint", if front == "sharded" { 2 } else { 1 }, vec![], vec![vec![api(Op::Ensure(k.clone(), Pop::Value(v(0, 0))))], vec![api(Op::Set(j.clone(), v(1, 0))), api(Op::Set(key3(), v(1, 1)))]], true, b2);
     if tier == Tier::Thorough {
         add("maint|maint|deleter", cap, crowd(), vec![vec![api(Op::Set(k.clone(), v(0, 0)))], vec![api(Op::Put(j.clone(), v(1, 0)))], vec![POp::Unlink(loc("x2"))]], true, b2);
